@@ -554,4 +554,22 @@ def gen_render_program(seed, n=6):
             es.append(Pr('~\\n', [V(name)]))
     k = r.randint(1, 3)
     es.append(Pr(' | '.join(['~'] * k) + '\\n', [V(r.choice(vals)[0]) for _ in range(k)]))
+    # print, change something nested (a primitive goes in, so the values stay acyclic), print the containers again
+    sizes = {}
+    fields = {}
+    for e in es:
+        if e['t'] == 'Let' and e['e']['t'] == 'Array':
+            sizes[e['n']] = e['e']['size']['v']
+        if e['t'] == 'Let' and e['e']['t'] == 'Object':
+            fields[e['n']] = [m['n'] for m in e['e']['members'] if m['t'] == 'Let']
+    prim = lambda: r.choice([I(r.choice([0, -1, 7, 99])), B(r.random() < 0.5), N()])
+    for _ in range(r.randint(1, 3)):
+        name, kind = r.choice(vals)
+        if kind == 'arr' and sizes.get(name, 0) > 0:
+            es.append(SIx(V(name), I(r.randint(0, sizes[name] - 1)), prim()))
+        elif kind == 'obj' and fields.get(name):
+            es.append(SF(V(name), r.choice(fields[name]), prim()))
+        else:
+            continue
+        es.append(Pr(' / '.join(['~'] * len(vals)) + '\\n', [V(v[0]) for v in vals]))
     return Top(es)
